@@ -1064,6 +1064,10 @@ class ContentDocument(Document):
     if region.get_doc() != self:
       raise ValueError("Region does not belongs to this document")
 
+    if self.get_region(region.get_id()) is not region:
+      # drops the references to the region being replaced
+      self.remove_region(region.get_id())
+
     self._regions[region.get_id()] = region
 
   def remove_region(self, region_id: str):
@@ -1077,11 +1081,10 @@ class ContentDocument(Document):
 
     body = self.get_body()
 
-    if body is not None: 
-      map(
-        lambda e: e.get_region() and e.get_region().get_id() == region_id and e.set_region(None),
-        body.dfs_iterator()
-      )
+    if body is not None:
+      for e in body.dfs_iterator():
+        if e.get_region() is region:
+          e.set_region(None)
 
     del self._regions[region_id]
 
